@@ -250,6 +250,20 @@ def run(case):
             g = np.asarray(mm_.get_missing_wedge_mask(quat)).astype(bool)
             case.check(g.shape == a.shape and np.array_equal(g, a), f"{nm_} gives a different mask", None,
                        shape=shape, range=rg, kept=int(g.sum()), kept_tuple=int(a.sum()))
+        # models built from tilt-model objects of either axis and from a dual-axis model use exactly that model's mask
+        from acryo.tilt import dual_axis
+
+        rg2 = tuple(p["combos"][-1]["range"])
+        for nm_, tobj in (("single_axis(x)", single_axis(rg, "x")), ("single_axis(y)", single_axis(rg, "y")),
+                          ("dual_axis", dual_axis(rg, rg2))):
+            want_ = np.asarray(tobj.create_mask(Rotation.from_quat(quat), shape)).astype(bool)
+            with warnings.catch_warnings():
+                warnings.simplefilter("ignore")
+                for how_, mm_ in (("constructor", Model(tmpl, tilt=tobj)), ("with_params", Model.with_params(tilt=tobj)(tmpl, None))):
+                    g = np.asarray(mm_.get_missing_wedge_mask(quat)).astype(bool)
+                    case.check(g.shape == want_.shape and np.array_equal(g, want_),
+                               f"alignment model built from {nm_} ({how_}) does not use that tilt model's mask", None,
+                               shape=shape, range=rg, kept=int(g.sum()), want=int(want_.sum()))
         F = np.fft.fftn(tmpl).astype(np.complex64)
         mm = np.asarray(m_tuple.mask_missing_wedge(F, quat))
         case.check(np.allclose(mm, F * a, atol=1e-5 * np.abs(F).max()),
